@@ -341,6 +341,7 @@ def variable_kern_section(ctx):
         fn = ["compileVariableTTF", "compileVariableCFF2"][(i // 2) % 2]
         wname, wcls = [("kernFeatureWriter", KernFeatureWriter), ("kernFeatureWriter2", KernFeatureWriter2)][(i // 4) % 2]
         only = i % 3                # which master alone carries the exceptions
+        mapped = i % 2 == 1         # a non-identity axis <map>: the middle master sits at design 500 = USER 400
         def master(k):
             kern = {("public.kern1.A", "public.kern2.V"): Fr(-40 - 10 * k), ("public.kern1.T", "public.kern2.o"): Fr(-30 - 7 * k),
                     ("public.kern1.T", "public.kern2.V"): Fr(9 + k)}
@@ -354,11 +355,13 @@ def variable_kern_section(ctx):
                     "features": "languagesystem DFLT dflt;\nlanguagesystem latn dflt;\n", "lib": {},
                     "info": {"familyName": "Fam", "styleName": "M%d" % k, "unitsPerEm": 1000, "ascender": 800, "descender": -200}}
         masters = [master(k) for k in range(3)]
-        case = {"function": fn, "writer": wname, "lib": lib, "master_with_the_exceptions": only,
+        case = {"function": fn, "writer": wname, "lib": lib, "master_with_the_exceptions": only, "axis_map": [(100, 100), (400, 500), (900, 900)] if mapped else None,
                 "masters": [jsonable({k: (v if k != "kerning" else {"%s|%s" % kk: vv for kk, vv in v.items()}) for k, v in m.items()}) for m in masters]}
         ctx.count(); ctx.klass("variable kerning: exceptions in master %d only/%s/%s" % (only, fn, wname)); ctx.nontriv(("vk", i, ctx.scale))
         try:
             ds, fonts = dsgen.make_designspace(rng, masters, lib, instances=False)
+            if mapped:
+                ds.axes[0].map = [(100, 100), (400, 500), (900, 900)]
             vf = getattr(ufo2ft, fn)(ds, useProductionNames=False, featureWriters=[CursFeatureWriter, wcls, MarkFeatureWriter, GdefFeatureWriter])
             b = io.BytesIO(); vf.save(b)
         except Exception as e:
@@ -366,7 +369,7 @@ def variable_kern_section(ctx):
             continue
         g1 = {g: gr for gr, ms in groups.items() if gr.startswith("public.kern1.") for g in ms}
         g2 = {g: gr for gr, ms in groups.items() if gr.startswith("public.kern2.") for g in ms}
-        for k, wght in enumerate([100, 500, 900]):
+        for k, wght in enumerate([100, 400 if mapped else 500, 900]):
             inst = instancer.instantiateVariableFont(TTFont(io.BytesIO(b.getvalue())), {"wght": wght})
             b2 = io.BytesIO(); inst.save(b2)
             lay = Layout(TTFont(io.BytesIO(b2.getvalue())))
